@@ -8,6 +8,7 @@ import numpy as np
 
 from harness.common import f2hex, hex2f, run_driver, lean_obligations, ulps
 from harness.oracle.epsilon_table import wynn_column_values
+from harness.translate import translator_obligations
 
 MODULE = 'Ndt.Props.C14'
 THEOREMS = ['Ndt.sweepAux_diag', 'Ndt.epsStep_diag', 'Ndt.epsRun_diag', 'Ndt.epsalg_returns_even_order',
@@ -79,6 +80,7 @@ def _gen_seq(rng, maxlen=200):
 
 def run(ctx):
     from numdifftools.extrapolation import Dea, EpsAlg, dea3
+    translator_obligations(ctx, ['dea3.'])          # the third value of Dea is tied to dea3 (and its helper max_abs), which is regenerated
     lean_obligations(ctx, MODULE, THEOREMS)
     rng = ctx.rng
     seqs = [gen_seq(rng) for _ in range(ctx.budget(300, 3000))]
